@@ -93,6 +93,9 @@ def gen_scenario(rng, *, family='well', cyclic=False, init_env=False,
             'echo_status': family == 'echo' and rng.random() < 0.5,
             'hints': family in ('well', 'echo') and rng.random() < 0.15,
             'fragile_eq': rng.random() < 0.1,
+            # a task that first looks at what is in the environment (a pure
+            # read: counts or collects the results that are there)
+            'surveys': rng.random() < 0.12,
         })
     scn = {
         'kind': 'sched',
@@ -114,7 +117,8 @@ def gen_scenario(rng, *, family='well', cyclic=False, init_env=False,
     # how the graphs are handed to the scheduler: node by node, from
     # dependency dictionaries, from the tasks' own dependency sets (the way
     # the run command builds them), or with a sub-graph embedded as one node
-    scn['graph_api'] = rng.choice(('add', 'add', 'dict', 'tasks', 'nested'))
+    scn['graph_api'] = rng.choice(('add', 'add', 'dict', 'tasks', 'nested',
+                                   'full'))
     if wide:
         scn['graph_api'] = 'add'
     if cyclic and scn['graph_api'] == 'nested':
@@ -398,7 +402,10 @@ def scripted_return(scn, i, status_enum, run_tag='r'):
     if out == 'notpair':
         return pick(42, 'a string', [1, 2, 3], upd, 0, '', (), [],
                     iter((upd, status_enum.DONE)),
-                    (x for x in (upd, status_enum.DONE)))
+                    (x for x in (upd, status_enum.DONE)),
+                    # things that cannot even be looked at
+                    _NoLength((upd, status_enum.DONE)),
+                    (_dead_proxy(), status_enum.DONE))
     if out == 'triple':
         return (upd, status_enum.DONE, 'extra') if var % 2 else (upd,)
     if out == 'badstatus':
@@ -416,6 +423,27 @@ def scripted_return(scn, i, status_enum, run_tag='r'):
         return {tsk['name']: pick('text', None, 5, ['a'], '', 0)}, \
             status_enum.DONE
     raise AssertionError(out)
+
+
+class _NoLength(tuple):
+    '''A result whose inspection raises.'''
+
+    def __len__(self):
+        raise TypeError('object of this type has no len()')
+
+
+class _Update(dict):
+    pass
+
+
+def _dead_proxy():
+    '''A weak reference to an update that is gone: any use of it raises
+    ReferenceError (isinstance() included).'''
+    import weakref
+    upd = _Update()
+    proxy = weakref.proxy(upd)
+    del upd
+    return proxy
 
 
 class ProbeError(Exception):
@@ -515,6 +543,10 @@ def build_tasks(scn, mods, recorder, run_tag='r', run_no=0, state=None):
             obs.append((j, stat, miss))
         rec = recorder.enter(sim, i, obs, run_no)
         sim.mark('do-enter', i)
+        if specs[i].get('surveys'):
+            for name in env:
+                sim.yield_point('survey')       # (reading takes time)
+                env.get(name)
         dur = specs[i]['dur']
         if dur:
             sim.sleep(dur * sim.tick, 'work')
@@ -602,6 +634,20 @@ def build_graphs(scn, mods, objs):
         soft = dg.from_dependency_dictionary(
             {objs[i]: [objs[j] for j in specs[i]['soft']] for i in by_rank})
         return hard, soft
+    if api == 'full':
+        # the full form of the constructor: the list of nodes and a mapping
+        # between their indices that only says what there is to say (a node
+        # without edges is in the list, not in the mapping)
+        rank = node_order(scn)
+        by_rank = sorted(range(len(specs)), key=lambda i: rank[i])
+        pos = {i: k for k, i in enumerate(by_rank)}
+        nodes = [objs[i] for i in by_rank]
+        graphs = []
+        for key in ('hard', 'soft'):
+            edges = {pos[i]: [pos[j] for j in specs[i][key]]
+                     for i in by_rank if specs[i][key]}
+            graphs.append(dg(list(nodes), edges))
+        return tuple(graphs)
     if api == 'tasks':
         # like valjean.cambronne.common.build_graphs on the tasks that
         # nobody depends on
@@ -1135,6 +1181,7 @@ def shrink_candidates(scn):
                 yield new
         for field, plain in (('outcome', 'ok'), ('dur', 0), ('shared', False),
                              ('echo_status', False), ('hints', False),
+                             ('surveys', False),
                              ('fragile_eq', False),
                              ('kind', 'task'), ('variant', 0),
                              ('name', 't%d' % i)):
